@@ -194,9 +194,70 @@ def check(ctx: Ctx) -> None:
     from ..idioms import check_no_tolerance_fast_paths
     check_no_tolerance_fast_paths(ctx, 'C14.h', [FG], floor=10)
     _check_similar_is_fresh(ctx)
+    _check_jakes_formula(ctx)
     # ------------------------------------------------------------------ C14.c
     ctx.rule('C14.c', 'DSF: per-ray phases follow the configured shape', floor=10)
     analyse_class(ctx, 'C14.c', JAKES, 'JakesSampleGenerator')
+
+
+def _check_jakes_formula(ctx: Ctx) -> None:
+    """C14.j: the samples are the Jakes sum of sinusoids evaluated at the generated time vector, as an identity of terms."""
+    M = ctx.model
+    ctx.rule('C14.j', 'the generated samples are sqrt(1/L) * sum_l exp(1j (2 pi Fd cos(phi_l) t + psi_l)) with t exactly the generated time '
+                      'vector (identity of normal forms); the time vector is not rewritten between its generation and the sum', floor=2)
+    SPEC = '(1 / L) ** (1 / 2) * sum(exp(1j * (2 * pi * Fd * cos(phi) * t + psi)), 0)'
+    alias = {'self._Fd': T.Term.sym('self.Fd'), 'self._L': T.Term.sym('self.L'), 'self._Ts': T.Term.sym('self.Ts')}
+    for q, syms, tsrc in (
+            ('JakesSampleGenerator.generate_more_samples',
+             {'L': 'self.L', 'Fd': 'self.Fd', 'phi': 'self._phi_l', 'psi': 'self._psi_l'}, 'self._generate_time_samples'),
+            ('generate_jakes_samples', {'L': 'L', 'Fd': 'Fd', 'phi': 'phi_l', 'psi': 'psi_l'}, None)):
+        fn = M.func(FG, q)
+        ctx.instance('C14.j', q)
+        # the expression that becomes the samples: value stored to self._samples, or the 2nd element of the returned tuple
+        outs = [n.value for n in walk_no_nested(fn.node) if isinstance(n, ast.Assign) and any(is_self_attr(t_, 'self') == '_samples' for t_ in n.targets)]
+        outs += [n.value.elts[1] for n in walk_no_nested(fn.node) if isinstance(n, ast.Return) and isinstance(n.value, ast.Tuple) and len(n.value.elts) == 2]
+        if len(outs) != 1:
+            ctx.error('C14.j: %s no longer produces its samples in one store / one returned pair (cannot tell)' % q)
+        # the time vector: the local bound to the time-sample call (class) or to the arange expression (function)
+        tnames = [n.targets[0].id for n in walk_no_nested(fn.node) if isinstance(n, ast.Assign) and len(n.targets) == 1
+                  and isinstance(n.targets[0], ast.Name) and any(
+                      isinstance(c, ast.Call) and (norm(c.func) == tsrc if tsrc else norm(c.func) in ('np.arange', 'np.linspace'))
+                      for c in ast.walk(n.value))]
+        rewrites = []
+        for tn in set(tnames):
+            binds = [n for n in walk_no_nested(fn.node) if isinstance(n, (ast.Assign, ast.AugAssign)) and any(
+                isinstance(x, ast.Name) and x.id == tn for t_ in (n.targets if isinstance(n, ast.Assign) else [n.target]) for x in ast.walk(t_))]
+            binds.sort(key=lambda b_: (b_.lineno, b_.col_offset))
+            for b in binds[1:] if isinstance(binds[0], ast.Assign) else binds:
+                arith = isinstance(b, ast.AugAssign) or any(
+                    isinstance(x, ast.BinOp) or (isinstance(x, ast.Call) and norm(x.func).split('.')[-1] in ('mod', 'fmod', 'remainder', 'round', 'around', 'floor', 'clip', 'minimum', 'maximum', 'unwrap'))
+                    for x in ast.walk(b.value))
+                rewrites.append((b, arith))
+        if any(a for _, a in rewrites):
+            b = [b for b, a in rewrites if a][0]
+            ctx.obligation('C14.j', q, False, {'time_vector_rewritten_by': norm(b)[:90]})
+            ctx.violation('C14.j', q, 'the generated time vector is rewritten by `%s` before it enters the sum of sinusoids: the rays have '
+                          'different Doppler shifts Fd cos(phi_l), so no common wrap / rounding of t leaves every ray\'s phase unchanged - sample k '
+                          'is no longer the model at k x Ts' % norm(b)[:70], fn.path, b.lineno, operand='time-rewritten')
+            continue
+        try:
+            env = T.Env(M, fn)
+            env.vars.update(T.local_terms(M, fn))
+            got = T.substitute(T.from_ast(outs[0], env), alias)
+            tt = None
+            for tn in tnames:
+                if tn in env.vars:
+                    tt = T.substitute(env.vars[tn], alias)
+            if tt is None:
+                raise T.Unknown('the time vector is not a single-assignment formula')
+            want = T.parse_spec(SPEC, None, t=tt, **{k: T.Term.sym(v) for k, v in syms.items()})
+        except T.Unknown as e:
+            ctx.error('C14.j: the samples of %s are not a closed formula of the time vector (%s): cannot tell' % (q, e))
+        ok = got == want
+        ctx.obligation('C14.j', q, ok, {'samples': got.pretty()[:200], 'specification': want.pretty()[:200]})
+        if not ok:
+            ctx.violation('C14.j', q, 'the samples are `%s`, not the Jakes model `%s`' % (got.pretty()[:120], want.pretty()[:120]),
+                          fn.path, outs[0].lineno, operand='formula')
 
 
 def synthetic():
